@@ -457,3 +457,392 @@ Proof.
   rewrite E, Db in Da. injection Da as -> ->. split; reflexivity.
 Qed.
 Print Assumptions encode_prefix_free.
+
+(** * CBOR sequences and indefinite-length arrays *)
+
+Theorem decode_seq_encode_seq l fuel :
+  Forall wf l -> Forall (fun v => (depth v <= fuel)%nat) l ->
+  decode_seq fuel (encode_seq l) = Some l.
+Proof.
+  intros Hwf Hd. rewrite Forall_forall in Hwf, Hd. unfold decode_seq.
+  apply dec_seq_encode; [|apply encode_seq_length_ge].
+  intros x Hx rest. apply decode_encode_depth; [apply Hwf, Hx | apply Hd, Hx].
+Qed.
+Print Assumptions decode_seq_encode_seq.
+
+Theorem decode_seq_strict_encode_seq l fuel :
+  Forall wf l -> Forall (fun v => (depth v <= fuel)%nat) l ->
+  decode_seq_strict fuel (encode_seq l) = Some l.
+Proof.
+  intros Hwf Hd. rewrite Forall_forall in Hwf, Hd. unfold decode_seq_strict.
+  apply dec_seq_encode; [|apply encode_seq_length_ge].
+  intros x Hx rest. apply decode_strict_encode; [apply Hwf, Hx | apply Hd, Hx].
+Qed.
+Print Assumptions decode_seq_strict_encode_seq.
+
+(** No bound on the number of items is needed here: the count is not
+    transmitted. *)
+Theorem decode_indef l rest fuel :
+  Forall wf l -> Forall (fun v => (depth v <= fuel)%nat) l ->
+  decode (S fuel) (encode_indef_arr l ++ rest) = Some (CArr l, rest).
+Proof.
+  intros Hwf Hd. rewrite Forall_forall in Hwf, Hd.
+  unfold decode. rewrite decode_gen_S. unfold encode_indef_arr.
+  cbn [app]. rewrite <- app_assoc. cbn [app].
+  rewrite step_indef by reflexivity.
+  rewrite dec_until_break_encode; [reflexivity| |].
+  - intros x Hx rest'. apply decode_gen_encode; [apply Hwf, Hx | apply Hd, Hx].
+  - rewrite app_length. cbn [length]. pose proof (encode_seq_length_ge l). lia.
+Qed.
+Print Assumptions decode_indef.
+
+Lemma depth_CArr_le l fuel : (depth (CArr l) <= S fuel)%nat <-> Forall (fun v => (depth v <= fuel)%nat) l.
+Proof.
+  cbn [depth]. induction l as [|x l IH]; cbn [fold_right].
+  - split; [constructor|lia].
+  - split.
+    + intros H. constructor; [lia|]. apply IH. lia.
+    + intros H. inversion H as [|? ? Hx Hl]; subst. apply IH in Hl. lia.
+Qed.
+
+(** the same with the fuel expressed through the decoded value *)
+Theorem decode_indef_depth l rest fuel :
+  Forall wf l -> (depth (CArr l) <= fuel)%nat ->
+  decode fuel (encode_indef_arr l ++ rest) = Some (CArr l, rest).
+Proof.
+  intros Hwf Hd. destruct fuel as [|f]; [cbn [depth] in Hd; lia|].
+  apply decode_indef; [exact Hwf|]. apply depth_CArr_le. exact Hd.
+Qed.
+Print Assumptions decode_indef_depth.
+
+Example decode_indef_nonvacuous :
+  Forall wf [sample; CUint 7] /\ (depth (CArr [sample; CUint 7]) <= 4)%nat.
+Proof.
+  split; [|vm_compute; lia].
+  repeat constructor; try (apply wfb_spec; vm_compute; reflexivity).
+Qed.
+
+(** * The encoder produces octets *)
+
+Theorem encode_wf v : wf v -> wf_bytes (encode v).
+Proof.
+  induction v as [n|n|bs|bs|l IH|kvs IH|t w IH|n] using cbor_ind'; intros Hwf.
+  - cbn [encode]. apply head_wf. lia.
+  - cbn [encode]. apply head_wf. lia.
+  - cbn [encode wf] in *. apply wf_bytes_app. split; [apply head_wf; lia | tauto].
+  - cbn [encode wf] in *. apply wf_bytes_app. split; [apply head_wf; lia | tauto].
+  - apply wf_CArr in Hwf as [_ Hall]. rewrite encode_CArr. apply wf_bytes_app.
+    split; [apply head_wf; lia|].
+    induction IH as [|x l Hx _ IHl]; [constructor|].
+    inversion Hall as [|? ? Hwx Hwl]; subst.
+    rewrite encode_seq_cons. apply wf_bytes_app. split; [apply Hx, Hwx | apply IHl, Hwl].
+  - apply wf_CMap in Hwf as [_ Hall]. rewrite encode_CMap. apply wf_bytes_app.
+    split; [apply head_wf; lia|].
+    induction IH as [|[k w] l [Hk Hw] _ IHl]; [constructor|].
+    inversion Hall as [|? ? [Hwk Hww] Hwl]; subst. cbn [fst snd] in *.
+    rewrite encode_pairs_cons. apply wf_bytes_app. split; [apply Hk, Hwk|].
+    apply wf_bytes_app. split; [apply Hw, Hww | apply IHl, Hwl].
+  - cbn [encode]. apply wf_CTag in Hwf as [_ Hw]. apply wf_bytes_app.
+    split; [apply head_wf; lia | apply IH, Hw].
+  - cbn [encode]. apply head_wf. lia.
+Qed.
+Print Assumptions encode_wf.
+
+Theorem encode_seq_wf l : Forall wf l -> wf_bytes (encode_seq l).
+Proof.
+  induction 1 as [|x l Hx _ IH]; [constructor|].
+  rewrite encode_seq_cons. apply wf_bytes_app. split; [apply encode_wf, Hx | exact IH].
+Qed.
+Print Assumptions encode_seq_wf.
+
+Theorem encode_indef_arr_wf l : Forall wf l -> wf_bytes (encode_indef_arr l).
+Proof.
+  intros H. unfold encode_indef_arr. constructor; [unfold wf_byte; lia|].
+  apply wf_bytes_app. split; [apply encode_seq_wf, H|]. constructor; [unfold wf_byte; lia|constructor].
+Qed.
+Print Assumptions encode_indef_arr_wf.
+
+(** * [length (encode v)] is itself a sufficient amount of fuel *)
+
+Theorem size_le_length v : (size v <= length (encode v))%nat.
+Proof.
+  induction v as [n|n|bs|bs|l IH|kvs IH|t w IH|n] using cbor_ind'.
+  - rewrite encode_uint_length. pose proof (head_len_bounds n). cbn [size]. lia.
+  - rewrite encode_nint_length. pose proof (head_len_bounds n). cbn [size]. lia.
+  - rewrite encode_bstr_length. pose proof (head_len_bounds (N.of_nat (length bs))). cbn [size]. lia.
+  - rewrite encode_tstr_length. pose proof (head_len_bounds (N.of_nat (length bs))). cbn [size]. lia.
+  - rewrite encode_arr_length. cbn [size].
+    assert (H : (fold_right (fun x acc => (size x + acc)%nat) O l <= length (encode_seq l))%nat).
+    { induction IH as [|x l Hx _ IHl]; [cbn; lia|].
+      cbn [fold_right]. rewrite encode_seq_length_cons. lia. }
+    pose proof (head_len_bounds (N.of_nat (length l))) as Hh. lia.
+  - rewrite encode_map_length. cbn [size].
+    assert (H : (fold_right (fun kv acc => (size (fst kv) + size (snd kv) + acc)%nat) O kvs
+                 <= length (encode_pairs kvs))%nat).
+    { induction IH as [|[k w] l [Hk Hw] _ IHl]; [cbn; lia|].
+      cbn [fold_right fst snd] in *. rewrite encode_pairs_cons, !app_length. lia. }
+    pose proof (head_len_bounds (N.of_nat (length kvs))) as Hh. lia.
+  - rewrite encode_tag_length. pose proof (head_len_bounds t). cbn [size]. lia.
+  - cbn [encode size]. rewrite head_length. pose proof (head_len_bounds n). lia.
+Qed.
+Print Assumptions size_le_length.
+
+Theorem decode_encode_length v rest :
+  wf v -> decode (length (encode v)) (encode v ++ rest) = Some (v, rest).
+Proof. intros Hwf. apply decode_encode; [exact Hwf | apply size_le_length]. Qed.
+Print Assumptions decode_encode_length.
+
+(** * The strict decoder accepts only what the encoder emits *)
+
+Lemma decode_head_inv bs m n c rest :
+  decode_head bs = Some (m, n, c, rest) -> rest = skipn c bs /\ m < 8.
+Proof.
+  destruct bs as [|b tl]; [discriminate|]. unfold decode_head. cbv zeta.
+  destruct (N.leb_spec 256 b) as [Hb|Hb]; [discriminate|].
+  destruct (b mod 32 <? 24).
+  { intros H. inversion H; subst. split; [reflexivity|lia]. }
+  destruct (info_width (b mod 32)) as [k|]; [|discriminate].
+  unfold take_be. destruct (length tl <? k)%nat; [discriminate|].
+  intros H. inversion H; subst. split; [reflexivity|lia].
+Qed.
+
+Lemma head_okb_true bs m n c rest :
+  decode_head bs = Some (m, n, c, rest) -> head_okb true bs m n c = true -> bs = head m n ++ rest.
+Proof.
+  intros Hd Hok. apply decode_head_inv in Hd as [-> _]. unfold head_okb in Hok.
+  apply bytes_eqb_eq in Hok. rewrite <- Hok. symmetry. apply firstn_skipn.
+Qed.
+
+Lemma take_n_inv n bs s rest :
+  take_n n bs = Some (s, rest) -> bs = s ++ rest /\ N.of_nat (length s) = n.
+Proof.
+  unfold take_n. destruct (N.ltb_spec (N.of_nat (length bs)) n) as [H|H]; [discriminate|].
+  intros E. inversion E; subst. split; [symmetry; apply firstn_skipn|].
+  rewrite firstn_length_le by lia. lia.
+Qed.
+
+Lemma major_cases m : m < 8 -> m = 0 \/ m = 1 \/ m = 2 \/ m = 3 \/ m = 4 \/ m = 5 \/ m = 6 \/ m = 7.
+Proof. lia. Qed.
+
+Section StrictInv.
+  Variable dec : bytes -> option (cbor * bytes).
+  Hypothesis Hdec : forall bs v rest, dec bs = Some (v, rest) -> bs = encode v ++ rest.
+
+  Lemma dec_items_inv : forall n bs l rest,
+    dec_items dec n bs = Some (l, rest) -> bs = encode_seq l ++ rest /\ length l = n.
+  Proof.
+    induction n as [|n IH]; intros bs l rest H; cbn [dec_items] in H.
+    - inversion H; subst. split; reflexivity.
+    - destruct (dec bs) as [[v r]|] eqn:E; [|discriminate].
+      destruct (dec_items dec n r) as [[l' r']|] eqn:E2; [|discriminate].
+      inversion H; subst. apply Hdec in E. apply IH in E2 as [E2 El]. subst bs r.
+      rewrite encode_seq_cons, <- app_assoc. cbn [length]. split; [reflexivity|lia].
+  Qed.
+
+  Lemma dec_pairs_inv : forall n bs l rest,
+    dec_pairs dec n bs = Some (l, rest) -> bs = encode_pairs l ++ rest /\ length l = n.
+  Proof.
+    induction n as [|n IH]; intros bs l rest H; cbn [dec_pairs] in H.
+    - inversion H; subst. split; reflexivity.
+    - destruct (dec bs) as [[k r]|] eqn:E; [|discriminate].
+      destruct (dec r) as [[w r1]|] eqn:E1; [|discriminate].
+      destruct (dec_pairs dec n r1) as [[l' r']|] eqn:E2; [|discriminate].
+      inversion H; subst. apply Hdec in E. apply Hdec in E1. apply IH in E2 as [E2 El]. subst bs r r1.
+      rewrite encode_pairs_cons, <- !app_assoc. cbn [length]. split; [reflexivity|lia].
+  Qed.
+
+  Lemma dec_seq_inv : forall cnt bs l, dec_seq dec cnt bs = Some l -> bs = encode_seq l.
+  Proof.
+    induction cnt as [|cnt IH]; intros bs l H.
+    - destruct bs; cbn [dec_seq] in H; [|discriminate]. inversion H; subst. reflexivity.
+    - destruct bs as [|b tl]; cbn [dec_seq] in H; [inversion H; subst; reflexivity|].
+      destruct (dec (b :: tl)) as [[v r]|] eqn:E; [|discriminate].
+      destruct (dec_seq dec cnt r) as [l'|] eqn:E2; [|discriminate].
+      inversion H; subst. apply Hdec in E. apply IH in E2. subst r. rewrite E, encode_seq_cons. reflexivity.
+  Qed.
+
+  Lemma step_strict_inv bs v rest : step dec true bs = Some (v, rest) -> bs = encode v ++ rest.
+  Proof.
+    unfold step.
+    destruct (decode_head bs) as [[[[m n] c] r]|] eqn:Eh; [|discriminate].
+    destruct (head_okb true bs m n c) eqn:Hok; [|discriminate].
+    pose proof (head_okb_true bs m n c r Eh Hok) as Ebs.
+    apply decode_head_inv in Eh as [_ Hm].
+    intros H. rewrite Ebs. clear Ebs Hok.
+    destruct (major_cases m Hm) as [->|[->|[->|[->|[->|[->|[->| ->]]]]]]]; unfold dispatch in H.
+    - inversion H; subst. reflexivity.
+    - inversion H; subst. reflexivity.
+    - destruct (take_n n r) as [[s r']|] eqn:T; [|discriminate]. inversion H; subst.
+      apply take_n_inv in T as [-> <-]. cbn [encode]. rewrite <- app_assoc. reflexivity.
+    - destruct (take_n n r) as [[s r']|] eqn:T; [|discriminate]. inversion H; subst.
+      apply take_n_inv in T as [-> <-]. cbn [encode]. rewrite <- app_assoc. reflexivity.
+    - destruct (N.of_nat (length r) <? n); [discriminate|].
+      destruct (dec_items dec (N.to_nat n) r) as [[l r']|] eqn:T; [|discriminate]. inversion H; subst.
+      apply dec_items_inv in T as [-> El]. rewrite encode_CArr, <- app_assoc, El, N2Nat.id. reflexivity.
+    - destruct (N.of_nat (length r) <? 2 * n); [discriminate|].
+      destruct (dec_pairs dec (N.to_nat n) r) as [[l r']|] eqn:T; [|discriminate]. inversion H; subst.
+      apply dec_pairs_inv in T as [-> El]. rewrite encode_CMap, <- app_assoc, El, N2Nat.id. reflexivity.
+    - destruct (dec r) as [[w r']|] eqn:T; [|discriminate]. inversion H; subst.
+      apply Hdec in T. subst r. cbn [encode]. rewrite <- app_assoc. reflexivity.
+    - destruct (c =? 1)%nat; [|discriminate]. inversion H; subst. reflexivity.
+  Qed.
+End StrictInv.
+
+(** Re-encoding an item accepted by the strict decoder reproduces the octets
+    that were consumed, exactly. *)
+Theorem decode_canonical_reencode : forall fuel bs v rest,
+  decode_strict fuel bs = Some (v, rest) -> bs = encode v ++ rest.
+Proof.
+  unfold decode_strict. induction fuel as [|f IH]; intros bs v rest H; [discriminate|].
+  rewrite decode_gen_S in H. apply (step_strict_inv (decode_gen true f) IH). exact H.
+Qed.
+Print Assumptions decode_canonical_reencode.
+
+Theorem decode_seq_strict_reencode fuel bs l : decode_seq_strict fuel bs = Some l -> bs = encode_seq l.
+Proof. unfold decode_seq_strict. apply dec_seq_inv. apply decode_canonical_reencode. Qed.
+Print Assumptions decode_seq_strict_reencode.
+
+(** For well-formed values the strict decoder accepts exactly the encoder's image. *)
+Theorem decode_strict_iff v bs rest :
+  wf v -> ((exists fuel, decode_strict fuel bs = Some (v, rest)) <-> bs = encode v ++ rest).
+Proof.
+  intros Hwf. split.
+  - intros [fuel H]. apply decode_canonical_reencode in H. exact H.
+  - intros ->. exists (depth v). apply decode_strict_encode; [exact Hwf|lia].
+Qed.
+Print Assumptions decode_strict_iff.
+
+(** * More fuel never changes a result; strict results are permissive results *)
+
+Definition ext (d d' : bytes -> option (cbor * bytes)) : Prop :=
+  forall bs r, d bs = Some r -> d' bs = Some r.
+
+Section Mono.
+  Variables d d' : bytes -> option (cbor * bytes).
+  Hypothesis Hext : ext d d'.
+
+  Lemma dec_items_mono : forall n bs r, dec_items d n bs = Some r -> dec_items d' n bs = Some r.
+  Proof.
+    induction n as [|n IH]; intros bs r H; cbn [dec_items] in *; [exact H|].
+    destruct (d bs) as [[v r1]|] eqn:E; [|discriminate]. rewrite (Hext _ _ E).
+    destruct (dec_items d n r1) as [[l r2]|] eqn:E2; [|discriminate]. rewrite (IH _ _ E2). exact H.
+  Qed.
+
+  Lemma dec_pairs_mono : forall n bs r, dec_pairs d n bs = Some r -> dec_pairs d' n bs = Some r.
+  Proof.
+    induction n as [|n IH]; intros bs r H; cbn [dec_pairs] in *; [exact H|].
+    destruct (d bs) as [[k r1]|] eqn:E; [|discriminate]. rewrite (Hext _ _ E).
+    destruct (d r1) as [[w r2]|] eqn:E1; [|discriminate]. rewrite (Hext _ _ E1).
+    destruct (dec_pairs d n r2) as [[l r3]|] eqn:E2; [|discriminate]. rewrite (IH _ _ E2). exact H.
+  Qed.
+
+  Lemma dec_until_break_mono : forall cnt bs r,
+    dec_until_break d cnt bs = Some r -> dec_until_break d' cnt bs = Some r.
+  Proof.
+    induction cnt as [|cnt IH]; intros bs r H; cbn [dec_until_break] in *; [exact H|].
+    destruct bs as [|b tl]; [exact H|]. destruct (b =? 255); [exact H|].
+    destruct (d (b :: tl)) as [[v r1]|] eqn:E; [|discriminate]. rewrite (Hext _ _ E).
+    destruct (dec_until_break d cnt r1) as [[l r2]|] eqn:E2; [|discriminate]. rewrite (IH _ _ E2). exact H.
+  Qed.
+
+  Lemma dec_seq_mono : forall cnt bs l, dec_seq d cnt bs = Some l -> dec_seq d' cnt bs = Some l.
+  Proof.
+    induction cnt as [|cnt IH]; intros bs l H; destruct bs as [|b tl]; cbn [dec_seq] in *; try exact H.
+    destruct (d (b :: tl)) as [[v r1]|] eqn:E; [|discriminate]. rewrite (Hext _ _ E).
+    destruct (dec_seq d cnt r1) as [l'|] eqn:E2; [|discriminate]. rewrite (IH _ _ E2). exact H.
+  Qed.
+
+  Lemma dispatch_mono m n c rest r : dispatch d m n c rest = Some r -> dispatch d' m n c rest = Some r.
+  Proof.
+    destruct (N.ltb_spec m 8) as [Hm|Hm].
+    - destruct (major_cases m Hm) as [->|[->|[->|[->|[->|[->|[->| ->]]]]]]]; unfold dispatch; try (intros H; exact H).
+      + destruct (N.of_nat (length rest) <? n); [discriminate|].
+        destruct (dec_items d (N.to_nat n) rest) as [[l r']|] eqn:T; [|discriminate].
+        rewrite (dec_items_mono _ _ _ T). intros H; exact H.
+      + destruct (N.of_nat (length rest) <? 2 * n); [discriminate|].
+        destruct (dec_pairs d (N.to_nat n) rest) as [[l r']|] eqn:T; [|discriminate].
+        rewrite (dec_pairs_mono _ _ _ T). intros H; exact H.
+      + destruct (d rest) as [[w r']|] eqn:T; [|discriminate]. rewrite (Hext _ _ T). intros H; exact H.
+    - unfold dispatch. destruct m as [|[[[|]|[|]|]|[[|]|[|]|]|]]; try discriminate; lia.
+  Qed.
+
+  Lemma step_mono strict bs r : step d strict bs = Some r -> step d' strict bs = Some r.
+  Proof.
+    unfold step. destruct (if strict then None else indef_start bs) as [tl|].
+    - destruct (dec_until_break d (length tl) tl) as [[l r']|] eqn:T; [|discriminate].
+      rewrite (dec_until_break_mono _ _ _ T). intros H; exact H.
+    - destruct (decode_head bs) as [[[[m n] c] r']|]; [|discriminate].
+      destruct (head_okb strict bs m n c); [|discriminate]. apply dispatch_mono.
+  Qed.
+
+  Lemma decode_head_not_indef bs x : decode_head bs = Some x -> indef_start bs = None.
+  Proof.
+    destruct bs as [|b tl]; [reflexivity|]. cbn [indef_start].
+    destruct (N.eqb_spec b 159) as [->|Hb]; [|reflexivity]. vm_compute. discriminate.
+  Qed.
+
+  Lemma step_strict_sub bs r : step d true bs = Some r -> step d' false bs = Some r.
+  Proof.
+    unfold step.
+    destruct (decode_head bs) as [[[[m n] c] r']|] eqn:Eh; [|discriminate].
+    rewrite (decode_head_not_indef _ _ Eh).
+    destruct (head_okb true bs m n c); [|discriminate]. cbn [head_okb]. apply dispatch_mono.
+  Qed.
+End Mono.
+
+Theorem decode_gen_fuel_mono strict : forall f f', (f <= f')%nat -> ext (decode_gen strict f) (decode_gen strict f').
+Proof.
+  induction f as [|f IH]; intros f' Hle bs r H; [discriminate|].
+  destruct f' as [|f']; [lia|]. rewrite decode_gen_S in *.
+  apply (step_mono (decode_gen strict f) (decode_gen strict f')); [apply IH; lia | exact H].
+Qed.
+Print Assumptions decode_gen_fuel_mono.
+
+Theorem decode_fuel_mono f f' bs r : (f <= f')%nat -> decode f bs = Some r -> decode f' bs = Some r.
+Proof. intros Hle. apply (decode_gen_fuel_mono false f f' Hle). Qed.
+Print Assumptions decode_fuel_mono.
+
+Theorem decode_strict_fuel_mono f f' bs r :
+  (f <= f')%nat -> decode_strict f bs = Some r -> decode_strict f' bs = Some r.
+Proof. intros Hle. apply (decode_gen_fuel_mono true f f' Hle). Qed.
+Print Assumptions decode_strict_fuel_mono.
+
+(** The result does not depend on the fuel, once there is enough. *)
+Theorem decode_fuel_indep f f' bs r r' : decode f bs = Some r -> decode f' bs = Some r' -> r = r'.
+Proof.
+  intros H H'.
+  apply (decode_fuel_mono f (Nat.max f f')) in H; [|lia].
+  apply (decode_fuel_mono f' (Nat.max f f')) in H'; [|lia].
+  rewrite H in H'. injection H' as ->. reflexivity.
+Qed.
+Print Assumptions decode_fuel_indep.
+
+Theorem decode_strict_decode : forall f bs r, decode_strict f bs = Some r -> decode f bs = Some r.
+Proof.
+  unfold decode_strict, decode. induction f as [|f IH]; intros bs r H; [discriminate|].
+  rewrite decode_gen_S in *. apply (step_strict_sub (decode_gen true f) (decode_gen false f)); [exact IH|exact H].
+Qed.
+Print Assumptions decode_strict_decode.
+
+Theorem decode_seq_fuel_mono f f' bs l : (f <= f')%nat -> decode_seq f bs = Some l -> decode_seq f' bs = Some l.
+Proof.
+  intros Hle. unfold decode_seq. apply dec_seq_mono. intros b r. apply decode_fuel_mono. exact Hle.
+Qed.
+Print Assumptions decode_seq_fuel_mono.
+
+(** "canonical input": the strict decoder accepts it (with some fuel). Then
+    whatever the permissive decoder returns re-encodes to the input. *)
+Definition canonical (bs : bytes) : Prop := exists fuel r, decode_strict fuel bs = Some r.
+
+Theorem canonical_decode_reencode bs fuel v rest :
+  canonical bs -> decode fuel bs = Some (v, rest) -> bs = encode v ++ rest.
+Proof.
+  intros (f & r & Hs) Hd. pose proof (decode_strict_decode f bs r Hs) as Hd'.
+  pose proof (decode_fuel_indep _ _ _ _ _ Hd Hd') as <-.
+  apply (decode_canonical_reencode f). exact Hs.
+Qed.
+Print Assumptions canonical_decode_reencode.
+
+Theorem canonical_encode v rest : wf v -> canonical (encode v ++ rest).
+Proof. intros Hwf. exists (depth v), (v, rest). apply decode_strict_encode; [exact Hwf|lia]. Qed.
+Print Assumptions canonical_encode.
